@@ -73,7 +73,7 @@ TEXTS = {
         "technique": SIM + "generator-process histories x consumer-process restarts; encode -> parse -> decode in a pristine policy; differential of outcome tables before / after, ASan-guarded emitted object, hash-budget fault inside decode",
         "design_ref": "DESIGN.md 4 (C13)",
         "text": "The encoded dispatch data is durable state produced by a generator process (after any load / unload / update history) and consumed by another process that holds the same registrations and never calls update. The simulator runs the real encode_dispatch_data on the compiler object of the last update, parses the emitted structure (bounds, initialisers, decode call), simulates the end of the process (every registration destroyed, every static of the policy back to zero), constructs the same registrations again, lays the emitted object out in one heap block of exactly its declared size and runs the real decode_dispatch_data on it; then every sampled call is resolved three ways and the outcome table must equal the one observed right after the encoded update; every look-up goes through the hash decode published. Violations of other properties' oracles count for C13 only if they were not already present before decoding.",
-        "note": "known finding K1: decode does not install next; whether the supported compilers accept the text is not decided (parser stub); same catalog order assumed in both processes",
+        "note": "whether the supported compilers accept the text is decided by a parser stub, cross-checked with g++ / clang++ in 1 % of the runs (no MSVC); same catalog order assumed in both processes; finding K1 (decode did not install next) was repaired in /repo (6b14f6f)",
     },
     "C14": {
         "technique": SIM + "interleavings of registrations, updates (also aborted), handler changes over 2-3 policies sharing class ids",
